@@ -87,6 +87,10 @@ def prefit(e, X, rng, **kw):
         X0 = X0[np.sort(np.unique(X0, axis=0, return_index=True)[1])]
         try:
             e.fit(np.ascontiguousarray(X0))
+            # look at the first result the way a user would
+            _ = (e.centers_, e.labels_, e.distances_, e.center_indices_)
+            if rng.random() < 0.5:
+                e.predict(np.ascontiguousarray(X0))
         except Exception:  # noqa
             pass
     before = {k: v for k, v in vars(e).items() if k in (
